@@ -119,7 +119,7 @@ def monitored_class():
             # F6: when the clean-up returns, the cache is below the memory
             # threshold or nothing removable (age > 1, importance > 0) is
             # left - sizes measured as the clean-up's own entry test does
-            from aurel.core import get_size
+            from aurel.utils.memory import get_size   # the documented one
             thr = self.memory_threshold_inGB * 1024 ** 3
             if get_size(self.data) >= thr:
                 left = [k for k, t in self.last_accessed.items()
